@@ -2,7 +2,7 @@
 from vlib import Rng
 import sockgen as G
 
-RULE = ("every 10th history also over a real loopback connection (family socknet); " "family sock: Construct, then setStatusCode/setHeader(replace|append)/setHeaders histories (0-8 setters, case-variant and repeated "
+RULE = ("a response of several MiB written and closed at once through a TLS listener vs plain TCP (family tls); every 10th history also over a real loopback connection (family socknet); " "family sock: Construct, then setStatusCode/setHeader(replace|append)/setHeaders histories (0-8 setters, case-variant and repeated "
         "names, values with commas), then [writeHeaders] write* [close] or one convenience response (writeError/writeRedirect/writeJson), "
         "then post-close calls; acknowledgements interleaved; wire re-parsed by an independent response parser; non-trivial = distinct case")
 ASSUMPTIONS = ["documented preconditions: setters before the head is out, at most one explicit writeHeaders, CR/LF-free names/values/reasons",
@@ -87,3 +87,7 @@ def cases(tier, seed, ctx=None):
             yield ("socknet", [G.NOPOL, [o for o in ops if o[0] != 1] + [G.Turn], env, [3]], "net-" + tag)
         ops.append(G.Ack(rng.range(0, 100)))
         yield ("sock", [G.NOPOL, ops, env, [3]], tag)
+    # the response as the client of a TLS listener receives it: several MiB (and a few bytes) written and closed at once must arrive
+    # whole, exactly as over plain TCP
+    yield ("tls", [1, b"GET /big HTTP/1.1\r\nHost: h\r\n\r\n", 5], "tls-big-response")
+    yield ("tls", [1, b"GET /small HTTP/1.1\r\nHost: h\r\n\r\n", 5], "tls-small-response")
